@@ -158,35 +158,11 @@ def run(ctx):
         ctx.floor("required members", n_req, 19, cfg=cfg)
         # hand-written decoders decode exactly the documented leaf types: a wrong CBOR type must fail in the leaf
         # decoder (-> InvalidCbor), so none of them may accept "anything" (IgnoredAny) or another type
-        want_leaves = {
-            "<webauthn::Icon as serde_core::de::Deserialize<'de>>::deserialize": {"&str"},
-            "webauthn::deserialize_from_str_and_skip_if_too_long": {"&str"},
-            "webauthn::deserialize_from_str_and_truncate": {"core::option::Option<&str>"},
-            "<<ctap2::AttestationFormatsPreference as serde_core::de::Deserialize<'de>>::deserialize::ValueVisitor as serde_core::de::Visitor<'de>>::visit_seq": {"&str"},
-            "<<webauthn::FilteredPublicKeyCredentialParameters as serde_core::de::Deserialize<'de>>::deserialize::ValueVisitor as serde_core::de::Visitor<'de>>::visit_seq": {"webauthn::PublicKeyCredentialParameters"},
-        }
-        got_leaves = {}
-        for f in F.fns:
-            if f["pv"] != "user":
-                continue
-            for x in H.walk(f["body"]):
-                if x.get("pv") != "user":
-                    continue
-                c = x.get("callee")
-                ta = x.get("targs") or []
-                t = None
-                if c == "serde_core::de::Deserialize::deserialize" and ta:
-                    t = ta[0]
-                elif c in ("serde_core::de::SeqAccess::next_element", "serde_core::de::MapAccess::next_value", "serde_core::de::MapAccess::next_key") and len(ta) > 1:
-                    t = ta[1]
-                elif c in ("serde_core::de::MapAccess::next_entry",) and len(ta) > 2:
-                    t = ta[1] + " / " + ta[2]
-                if t is not None:
-                    got_leaves.setdefault(f["path"], set()).add(W.erase_lt(t))
-        for path in sorted(set(got_leaves) | set(want_leaves)):
-            ctx.oblige("C05|handwritten-leaf|" + path, got_leaves.get(path) == want_leaves.get(path),
-                       "hand-written decoder %s decodes %s, documented %s: a value of the wrong CBOR type may be accepted instead of rejected with InvalidCbor" %
-                       (path, sorted(got_leaves.get(path, [])), sorted(want_leaves.get(path, []))), cfg=cfg)
+        got_leaves = W.handwritten_leaves(F)
+        for key in sorted(set(got_leaves) | set(W.WANT_LEAVES)):
+            label = "::".join(key[1:])
+            ctx.oblige("C05|handwritten-leaf|" + label, got_leaves.get(key) == W.WANT_LEAVES.get(key),
+                       "hand-written decoder %s decodes %s, documented %s: a value of the wrong CBOR type may be accepted instead of rejected with InvalidCbor" % (label, sorted(got_leaves.get(key, [])), sorted(W.WANT_LEAVES.get(key, []))), cfg=cfg)
         # hand-written decoders never raise missing_field
         for f in F.fns:
             if f["pv"] != "user":
